@@ -25,6 +25,9 @@ type Case struct {
 	// NoTx: the changes are applied outside a transaction (what `--tx-mode none` does); foreign-key
 	// enforcement then stays on unless the plan itself switches it off around a table rebuild.
 	NoTx bool `json:"no_tx,omitempty"`
+	// Exported: the desired HCL is atlas's own export of B (inspect a database created with B's DDL,
+	// MarshalHCL) instead of the HCL of our writer.
+	Exported bool `json:"exported,omitempty"`
 }
 
 func stateOf(names []string) squ.State {
@@ -245,7 +248,31 @@ func Eval(ctx context.Context, c Case) (res Result) {
 		return
 	}
 	desired := &schema.Realm{}
-	if err := sqlite.EvalHCLBytes([]byte(B.HCL()), desired, nil); err != nil {
+	hclB := B.HCL()
+	if c.Exported {
+		ref, err := sqliteh.Open(ctx)
+		if err != nil {
+			bad("harness: %v", err)
+			return
+		}
+		defer ref.Close()
+		if err := ref.Exec(ctx, B.DDL(0)...); err != nil {
+			res.Skipped = "engine rejects B"
+			return
+		}
+		br, err := ref.Atlas.InspectRealm(ctx, nil)
+		if err != nil {
+			bad("inspect B: %v", err)
+			return
+		}
+		b, err := sqlite.MarshalHCL.MarshalSpec(br)
+		if err != nil {
+			bad("export of B: %v", err)
+			return
+		}
+		hclB = string(b)
+	}
+	if err := sqlite.EvalHCLBytes([]byte(hclB), desired, nil); err != nil {
 		bad("harness: desired HCL rejected: %v", err)
 		return
 	}
@@ -348,9 +375,9 @@ func pairs(tier string) []Case {
 			return
 		}
 		for v := 0; v < 2; v++ {
-			cs = append(cs, Case{a.Names(), b.Names(), v, false})
+			cs = append(cs, Case{a.Names(), b.Names(), v, false, false})
 		}
-		cs = append(cs, Case{a.Names(), b.Names(), 1, true})
+		cs = append(cs, Case{a.Names(), b.Names(), 1, true, false}, Case{a.Names(), b.Names(), 0, false, true})
 	}
 	for _, a := range u1 {
 		for _, b := range u1 {
@@ -364,7 +391,7 @@ func pairs(tier string) []Case {
 				if len(a) <= 1 && len(b) <= 1 {
 					continue
 				}
-				cs = append(cs, Case{a.Names(), b.Names(), (len(a)*3 + len(b)) % 2, (len(a)+len(b))%2 == 0})
+				cs = append(cs, Case{a.Names(), b.Names(), (len(a)*3 + len(b)) % 2, (len(a)+len(b))%2 == 0, (len(a)+2*len(b))%3 == 0})
 			}
 		}
 		return cs
@@ -375,17 +402,17 @@ func pairs(tier string) []Case {
 		}
 		for i := 0; i < 2; i++ {
 			sub := squ.State{s[i]}
-			cs = append(cs, Case{s.Names(), sub.Names(), 0, false}, Case{sub.Names(), s.Names(), 0, true})
+			cs = append(cs, Case{s.Names(), sub.Names(), 0, false, false}, Case{sub.Names(), s.Names(), 0, true, false})
 		}
 		// and against the bare skeleton: plans that change two things at once.
-		cs = append(cs, Case{nil, s.Names(), 1, true}, Case{s.Names(), nil, 1, false})
+		cs = append(cs, Case{nil, s.Names(), 1, true, true}, Case{s.Names(), nil, 1, false, false})
 	}
 	return cs
 }
 
 func Run(r *report.Run) {
 	ctx := context.Background()
-	r.Rule = "pairs (A,B) of the SQLite schema universe (quick: all pairs of <=1-feature states plus each 2-feature state against its 1-feature sub-states and against the bare skeleton; thorough: all pairs of <=2-feature states), A created by our DDL and populated with 3 rows per table (2 data variants: third row holds NULL wherever A allows / no NULLs), then the `schema apply` flow towards B, inside a transaction and (one data variant) outside one, as --tx-mode none does; the bystander table u holds child rows of t (ON DELETE CASCADE); rows read before/after by our own connection with quote(); non-trivial = pair with a non-empty plan that was applied; distinct = (A,B,variant)"
+	r.Rule = "pairs (A,B) of the SQLite schema universe (quick: all pairs of <=1-feature states plus each 2-feature state against its 1-feature sub-states and against the bare skeleton; thorough: all pairs of <=2-feature states), A created by our DDL and populated with 3 rows per table (2 data variants: third row holds NULL wherever A allows / no NULLs), then the `schema apply` flow towards B (given as HCL of our writer, or as atlas's own export of a database built with B's DDL), inside a transaction and (one data variant) outside one, as --tx-mode none does; the bystander table u holds child rows of t (ON DELETE CASCADE); rows read before/after by our own connection with quote(); non-trivial = pair with a non-empty plan that was applied; distinct = (A,B,variant)"
 	r.Assumptions = []string{
 		"a plan may fail only if the desired schema cannot hold the data (NOT NULL without default over a NULL or as a new column); such expected failures are counted separately",
 		"a value is compared when the column exists before and after with the same declared type and is not generated; NULL under a new NOT NULL DEFAULT x is expected to become x",
@@ -395,7 +422,7 @@ func Run(r *report.Run) {
 	skipped, expected, rebuild, alter, compared := 0, 0, 0, 0, 0
 	err := enum.ProcMap(len(cs), func(i int) Result { return Eval(ctx, cs[i]) }, func(i int, res Result) {
 		c := cs[i]
-		r.Case(fmt.Sprintf("%v|%v|%d", c.A, c.B, c.Variant), res.NonEmpty && res.Skipped == "" && res.Expected == "")
+		r.Case(fmt.Sprintf("%v|%v|%d|%v|%v", c.A, c.B, c.Variant, c.NoTx, c.Exported), res.NonEmpty && res.Skipped == "" && res.Expected == "")
 		mu.Lock()
 		if res.Skipped != "" {
 			skipped++
